@@ -48,6 +48,10 @@ def scenario(R, N, kind, F, with_send_fault, forced=None, status="instant"):
                 tr["sent_fault"] = "armed"
             if beh == "reset":
                 script["death"] = ConnectionResetError("reset by peer")
+            if beh == "dead":
+                # accepted, but the peer is already gone: the first application write fails, and the reader sees the end of the stream a little later
+                script["write_error_at"] = 1 if kind != "waveshare" else 2
+                loop.call_later(0.3, r.feed_eof)
             w = aio.FakeWriter(tr["writes"], i, script)
             pk = pkts[i % len(pkts)]
             if beh == "eof":
@@ -79,6 +83,9 @@ def scenario(R, N, kind, F, with_send_fault, forced=None, status="instant"):
             tr["states"].append((loop.time(), s.name))
             if status == "slow_connected" and s.name == "CONNECTED":
                 await asyncio.sleep(0.4)          # an application that does some I/O when the link comes up
+            if status == "sends_on_connected" and s.name == "CONNECTED" and kind != "actisense":
+                # an application that announces itself / asks for address claims as soon as the link is up (inside connect(), which still holds its lock)
+                await c.send(N.decoder.NMEA2000Decoder()._decode(127250, 2, 9, 255, None, bytes([9, 0x10, 0x27, 0xFF, 0x7F, 0xFF, 0x7F, 0xFD][::-1]), b""))
         c.set_receive_callback(rx)
         c.set_status_callback(st)
 
@@ -204,7 +211,7 @@ def _worker(job):
             if problems:
                 what = problems[0]
                 rep.violation({"kind": "recovery", "client": kind, "what": what.split(":")[0][:50]},
-                              "%s client, fault schedule %r%s%s: %s" % (kind, sched, " + write error" if wsf else "", " (status callback suspends on CONNECTED)" if status != "instant" else "", "; ".join(problems[:2])),
+                              "%s client, fault schedule %r%s%s: %s" % (kind, sched, " + write error" if wsf else "", " (status callback suspends on CONNECTED)" if status == "slow_connected" else " (status callback sends on CONNECTED)" if status != "instant" else "", "; ".join(problems[:2])),
                               {"kind": "schedule", "client": kind, "F": F, "send_fault": wsf, "decisions": [int(d) for d in pa.decisions], "forced": forced, "status": status})
             if len(rep.samples) < 1 and isinstance(res, dict):
                 rep.sample({"client": kind, "schedule": sched, "attempt_times": [round(t, 2) for t, _ in res["conns"]], "states": res["states"][:6]})
@@ -289,6 +296,8 @@ def run(tier, seed):
     # a long outage: the delay between attempts must have stopped growing (reached its cap), and the client still recovers
     # a status callback that suspends while handling CONNECTED, with faults arriving meanwhile
     jobs += [(k, 2, False, None, "slow_connected") for k in aio.CLIENTS]
+    # a send from the CONNECTED notification that fails on a link that is already dead, then the read fault on the same link
+    jobs += [(k, 0, False, sch, "sends_on_connected") for k in aio.CLIENTS if k != "actisense" for sch in (["eof", "dead"], ["dead"], ["dead", "dead", "reset"])]
     jobs += [(k, 0, False, ["refuse"] * LONG) for k in aio.CLIENTS] + [("ebyte", 0, False, ["eof", "refuse", "refuse", "reset"] + ["refuse"] * LONG)]
     parts = run_jobs(rep, _worker, jobs, timeout_s=800 if tier == "quick" else 4500)
     from .plain import plain
